@@ -340,6 +340,25 @@ func driveEncoder(c *driverCtx, prop string) error {
 		}
 		c.rec.Realised(fmt.Sprintf("writes>=%d", min(writes/4*4, 12)))
 	}
+	// FileWriter directly: every payload length up to the limit (null codec; every 7th length for the others), with
+	// one- and two-byte record counts: boundaries of any size-dependent path show up as a mis-framed block
+	if prop == "C09" {
+		limit := c.pick(1300, 5000)
+		counts := []int{1, 63, 64, 200, 8192}
+		for n := 0; n <= limit; n += 3 {
+			for ci, codec := range codecs3 {
+				if codec != "null" && n%21 != 0 {
+					continue
+				}
+				blocks := make([][2]any, 3)
+				for j := range blocks {
+					blocks[j] = [2]any{counts[(n/3+j+ci)%len(counts)], payload(c.rng, n+j)}
+				}
+				runFileWriterHistory(c, fmt.Sprintf("%s|filewriter|%s|sweep", prop, codec), codec, blocks, 0, 0, nil)
+			}
+		}
+		c.rec.Realised("payload-length-sweep")
+	}
 	// FileWriter directly
 	nfw := c.pick(10, 120)
 	for i := 0; i < nfw; i++ {
